@@ -20,6 +20,7 @@ type Net struct {
 	mu  sync.Mutex
 	eps map[raft.ServerAddress]*Trans
 	cut map[[2]string]bool // directed: from -> to unreachable
+	slow map[[2]string]time.Duration // directed: requests from -> to are delivered this much later
 	rng *rand.Rand
 	ids uint64
 
@@ -74,11 +75,27 @@ func (n *Net) CutMany(pairs [][2]string) {
 func (n *Net) Heal() {
 	n.mu.Lock()
 	n.cut = map[[2]string]bool{}
+	n.slow = nil
 	for _, l := range n.link {
 		l.quar = false
 	}
 	n.w.Log(Ev{K: "x.heal"})
 	n.mu.Unlock()
+}
+
+// SetLinkDelay delays every request on the directed link by d (0 removes it); Heal removes all.
+func (n *Net) SetLinkDelay(from, to string, d time.Duration) {
+	n.mu.Lock()
+	if n.slow == nil {
+		n.slow = map[[2]string]time.Duration{}
+	}
+	if d == 0 {
+		delete(n.slow, [2]string{from, to})
+	} else {
+		n.slow[[2]string{from, to}] = d
+	}
+	n.mu.Unlock()
+	n.w.Log(Ev{K: "x.slow", S: from, X: to, A: uint64(d / time.Millisecond)})
 }
 
 func (n *Net) SetFaults(drop, respDrop, delay, dup float64, maxDelay time.Duration) {
@@ -156,6 +173,7 @@ func (n *Net) fate(from, to, kind string, pos uint64) fate {
 	if n.rng.Float64() < n.DupP {
 		f.dup = true
 	}
+	f.delayReq += n.slow[k]
 	return f
 }
 
